@@ -13,7 +13,10 @@ for d in sorted(os.listdir(root)):
     meta['confirmed_by_us'] = lines
     caught = [m.group(1) for l in lines for m in [re.match(r'check (C\d+) with patch: exit=1; [1-9]', l)] if m]
     missed = [m.group(1) for l in lines for m in [re.match(r'check (C\d+) with patch: exit=0', l)] if m]
+    thorough = [m.group(1) for l in lines for m in [re.match(r'check (C\d+) --tier thorough.* with patch: exit=1; [1-9]', l)] if m]
     meta['caught_by'] = caught
+    if thorough:
+        meta['caught_by_thorough_only'] = [c for c in thorough if c not in caught]
     if missed:
         meta['not_caught_by'] = missed
     json.dump(meta, open(mp, 'w'), indent=1)
